@@ -179,7 +179,8 @@ TReq ==
      /\ Chk("C04") => FixedOK(aux[ev.ifc], out)
      /\ PipeOK(ev)
      /\ Chk("C10") => PeerReportOK(req, aux[ev.ifc], out)
-     /\ (Chk("C09") /\ IsTopoReset(req) /\ FaultOf(ev) = 0) => FreshSnap(ev.st)
+     \* (C18: "after the fault clears and a Reset is received it behaves exactly like a freshly started responder")
+     /\ ((Chk("C09") \/ Chk("C18")) /\ IsTopoReset(req) /\ FaultOf(ev) = 0) => FreshSnap(ev.st)
      /\ \E nx \in NextStates(cfg, st, req, out, FaultOf(ev), ev.gf) :
           /\ Chk("SNAP") => AgreeSnap(nx, ev.st)
           /\ sts' = [sts EXCEPT ![ev.ifc] = nx]
